@@ -340,3 +340,28 @@ def replay_bignum_arms(viol):
                 a, b, ("gcd(A,B)" if k == "gcd" else "A %s B" % sym)))
             cases.append((goal, str(want)))
     return run_cases("", cases[:400], {"model": viol}, "C01", "bignum_arms")
+
+
+IDX2_PROGRAM = """
+show(X) :- write(X), nl.
+% one predicate with a first argument of every kind, so that switch_on_term is emitted
+k(a, atom). k(1, int). k(2.5, float). k(36028797018963968, big). k("str", string).
+k([x|_], list). k(f(_), struct). k(g(_,_), struct2). k([], nil). k('.', dotatom).
+k(R, rat) :- R == 0.5r, !.
+"""
+
+
+def replay_index_routing(diffs):
+    cases = [("findall(K, k(a, K), L), show(L)", "[atom]"),
+             ("findall(K, k(1, K), L), show(L)", "[int]"),
+             ("findall(K, k(2.5, K), L), show(L)", "[float]"),
+             ("X is 5.0/2, findall(K, k(X, K), L), show(L)", "[float]"),
+             ("findall(K, k(\"str\", K), L), show(L)", "[string]"),
+             ("findall(K, k([x,y], K), L), show(L)", "[list]"),
+             ("findall(K, k(f(1), K), L), show(L)", "[struct]"),
+             ("findall(K, k(g(1,2), K), L), show(L)", "[struct2]"),
+             ("findall(K, k([], K), L), show(L)", "[nil]"),
+             ("findall(K, k('.', K), L), show(L)", "[dotatom]"),
+             ("findall(K, k(h(1), K), L), show(L)", "[]"),
+             ("findall(K, k(_, K), L), length(L, N), show(N)", "10")]
+    return run_cases(IDX2_PROGRAM, cases, {"model": diffs}, "C06", "index_routing")
